@@ -121,6 +121,14 @@ SignLate(p, en) ==
     /\ last' = [a |-> "Sign", who |-> p, label |-> p, entity |-> en]
     /\ UNCHANGED <<epoch, imm, recorded, roundFor, open, sigs, buffered, certs, arts, sm, sealing>>
 
+(* a signature that party p made for ANOTHER message (e.g. replayed from an earlier round), submitted *)
+(* for the open message en, flagged authenticated: it does not verify for en's message and is refused *)
+SignBad(p, lbl, en) ==
+    /\ \E m \in open : m.entity = en /\ ~m.certified /\ ~m.expired
+    /\ p \in SignersOf(EntityEpoch(en)) /\ lbl \in SignersOf(EntityEpoch(en))
+    /\ last' = [a |-> "Sign", who |-> p, label |-> lbl, entity |-> en, variant |-> "bad"]
+    /\ UNCHANGED <<epoch, imm, recorded, roundFor, open, sigs, buffered, certs, arts, sm, sealing>>
+
 Expire(en) ==
     /\ \E m \in open : m.entity = en /\ ~m.certified /\ ~m.expired
     /\ open' = {IF m.entity = en THEN [m EXCEPT !.expired = TRUE] ELSE m : m \in open}
@@ -266,6 +274,14 @@ Restart ==
     /\ last' = [a |-> IF sealing = "none" THEN "Restart" ELSE "Crash", at |-> sealing]
     /\ UNCHANGED <<epoch, imm, recorded, roundFor, open, sigs, buffered, certs, arts>>
 
+(* a stop right before the first persistence step of sealing (nothing of it persisted yet) *)
+StopBeforeInsert ==
+    /\ sm.state = "signing" /\ sealing = "none"
+    /\ ~(sm.tpEpoch < epoch) /\ ~Outdated(sm.entity) /\ CanSeal(sm.entity)
+    /\ sm' = [state |-> "idle", tpEpoch |-> 0, entity |-> NoEntity]
+    /\ last' = [a |-> "Crash", at |-> "before_insert"]
+    /\ UNCHANGED <<epoch, imm, recorded, roundFor, open, sigs, buffered, certs, arts, sealing>>
+
 Tick == TickIdle \/ TickIdleStalled \/ TickBlocked \/ TickReady \/ TickSigningLeave \/ TickSigningWait \/ InsertCertificate
 Internal == MarkCertified \/ StoreArtifact
 OpenEntities == {m.entity : m \in open}
@@ -275,8 +291,9 @@ Env == \/ \E n \in 1..2 : EpochUp(n)
        \/ \E p, lbl \in Party : \E en \in OpenEntities : Sign(p, lbl, en)
        \/ \E p, lbl \in Party : \E en \in {MSD(epoch), CDB(epoch, imm)} : SignEarly(p, lbl, en)
        \/ \E p \in Party : \E en \in OpenEntities : SignLate(p, en)
+       \/ \E p, lbl \in Party : \E en \in OpenEntities : SignBad(p, lbl, en)
        \/ \E en \in OpenEntities : Expire(en)
-       \/ Restart
+       \/ Restart \/ StopBeforeInsert
 
 Next == Tick \/ Internal \/ Env
 Spec == Init /\ [][Next]_vars
@@ -300,6 +317,8 @@ ParentRule ==
 NoDoubleCertification == \A i, j \in DOMAIN certs : certs[i].entity = certs[j].entity => i = j
 
 (* C15 *)
+(* a round flagged certified has its certificate (else it would never be retried) *)
+CertifiedHasCertificate == \A m \in open : m.certified => \E i \in DOMAIN certs : certs[i].entity = m.entity
 NoTwoArtifacts == \A a, b \in arts : a.entity = b.entity => a = b
 ArtifactRefsItsCertificate == \A a \in arts : a.cert \in DOMAIN certs /\ certs[a.cert].entity = a.entity
 
